@@ -58,12 +58,22 @@ pub fn gen_c19(seed: u64, tier: &str) -> Value {
     if r.chance(1, 5) {
         disk_faults.push(json!({"op": "write", "path": "/var/log/azure-proxy-agent/c19", "nth": 1 + r.below(40), "errno": *r.pick(&[28i64, 5]), "short": 0}));
     }
+    // archiving or pruning fails: renaming a full log file, removing an old archive or dump (the bounds are still owed:
+    // what cannot be rolled must not keep growing, what cannot be pruned must not be added to)
+    let mut bound_faults = false;
+    if r.chance(1, 5) {
+        for _ in 0..1 + r.below(3) {
+            let (op, path) = *r.pick(&[("rename", "c19logs"), ("rename", "c19logs"), ("unlink", "c19logs"), ("unlink", "c19rules"), ("unlink", "c19events")]);
+            disk_faults.push(json!({"op": op, "path": path, "nth": 1 + r.below(6), "errno": *r.pick(&[5i64, 13, 36, 30]), "short": 0}));
+        }
+        bound_faults = true;
+    }
     let knobs = gen_knobs(&mut r, false);
     json!({
         "scenario": "disk:C19", "seed": seed, "family": "disk", "prop": "C19", "autostart": false,
         "knobs": knobs, "procs": [], "users": users_json(), "oracles": ["C19"], "disk_faults": disk_faults,
         "steps": [{"t": "disk_world", "loggers": loggers, "event_cap": event_cap, "rules_cap": rules_cap, "event_interval_ms": *r.pick(&[1000u64, 5000, 60_000]), "ops": ops, "backward_jumps": backward_jumps}],
-        "config": {}, "settle_ms": 100, "faulty": !disk_faults.is_empty(),
+        "config": {}, "settle_ms": 100, "faulty": !disk_faults.is_empty() && !bound_faults, "bound_faults": bound_faults,
     })
 }
 
@@ -100,6 +110,8 @@ pub async fn custom_step(run: &mut Run, _idx: usize, kind: &str, s: &Value) -> b
     let mut last_write: Vec<u64> = vec![0; specs.len()]; // size of the last single write per logger
     let mut rules_written: Vec<String> = Vec::new();
     let mut serial = 0u64;
+    let mut prev_sizes: std::collections::BTreeMap<String, (u64, u64)> = std::collections::BTreeMap::new();
+    let mut cur_sizes: std::collections::BTreeMap<String, (u64, u64)> = std::collections::BTreeMap::new();
     let mut junk: Vec<String> = Vec::new();
     let mut junk_serial = 0u64;
     let ops = s["ops"].as_array().cloned().unwrap_or_default();
@@ -179,11 +191,27 @@ pub async fn custom_step(run: &mut Run, _idx: usize, kind: &str, s: &Value) -> b
                 viol.push(("more files kept for a rolling log than its configured count".into(), format!("after op {} ({}): logger {} keeps {} files, count {}: {:?}", oi, what, name, mine.len(), count, mine.iter().map(|x| x.0.clone()).collect::<Vec<_>>())));
             }
             for (f, sz) in mine.iter() {
-                if *sz > size + last_write[i].max(1) && !faulty {
+                // a file may pass its limit by the write that crosses it; once it has reached the limit it must not grow
+                // any further (the next write rolls it first - and if rolling fails, that write is dropped)
+                // (a file of the same name with another inode is a new file: the old one was rolled in between)
+                let ino = crate::seams::untraced(|| {
+                    use std::os::unix::fs::MetadataExt;
+                    std::fs::metadata(format!("{}/{}", LOG_DIR, f)).map(|m| m.ino()).unwrap_or(0)
+                });
+                let before = match prev_sizes.get(f.as_str()) {
+                    Some((pino, psz)) if *pino == ino => *psz,
+                    _ => 0,
+                };
+                cur_sizes.insert(f.clone(), (ino, *sz));
+                if *sz > before && before >= *size && !faulty {
+                    viol.push(("log file grew beyond its size limit by more than one write".into(), format!("after op {} ({}): {} grew from {} to {} bytes, limit {}", oi, what, f, before, sz, size)));
+                }
+                if *sz > size + last_write[i].max(1) && before < *size && !faulty {
                     viol.push(("log file grew beyond its size limit by more than one write".into(), format!("after op {} ({}): {} is {} bytes, limit {} + last write {}", oi, what, f, sz, size, last_write[i])));
                 }
             }
         }
+        prev_sizes = std::mem::take(&mut cur_sizes);
         let ev = list(EVENT_DIR);
         if ev.len() > event_cap {
             viol.push(("event directory holds more files than its cap".into(), format!("after op {} ({}): {} files, cap {}", oi, what, ev.len(), event_cap)));
